@@ -1,6 +1,6 @@
 (** C13 — an out-of-range bound is never silent.  Statements only. *)
 From TucModel Require Import Base.Bytes Model.Bounds Model.CutBytes Model.Scan Model.Opt Model.CutStr
-     Model.FastLane Model.CutLines Model.Stream Spec.Resolve Proofs.BoundsFacts Proofs.C06 Proofs.C13.
+     Model.FastLane Model.CutLines Model.Stream Spec.Resolve Proofs.BoundsFacts Proofs.C06 Proofs.C13 Proofs.C01More Proofs.C13More.
 Local Open Scope Z_scope.
 
 (** "cannot be resolved" is exactly: try_into_range fails *)
@@ -118,6 +118,22 @@ Theorem C13_complement_keeps_unresolvable :
     In (Bound b) l -> bound_nz b -> ~ resolves b n -> In (Bound b) (complement_items l n).
 Proof. exact C13_complement_keeps. Qed.
 
+(** a whole record through the general path (literal delimiter, field mode: trim, -p, -g,
+    -s, -m, -j, -r, format text): if the record was cut - not dropped by -s, not failed - then
+    every requested bound that does not resolve on its fields had a fallback, its own or the
+    generic one; so an unresolvable bound without fallback always fails the record *)
+Theorem C13_whole_record_is_never_silent :
+  forall (o : opt) (line0 out : bytes),
+    o_regex o = None -> o_btype o = BFields -> o_json o = false ->
+    Forall item_nz (items (o_bounds o)) ->
+    cut_str o line0 = Some (ROk out) ->
+    let line1 := match o_trim o with Some k => trim_lit k (o_delim o) line0 | None => line0 end in
+    let fields := snd (lit_stage o line1) in
+    line1 <> [] -> (o_only_delimited o && Nat.eqb (length fields) 1) = false ->
+    forall b, In (Bound b) (items (o_bounds o)) -> ~ resolves b (length fields) ->
+              fallback_for b (o_fallback o) <> None.
+Proof. exact general_record_never_silent. Qed.
+
 Print Assumptions C13_unresolvable_iff.
 Print Assumptions C13_byte_mode.
 Print Assumptions C13_general_path.
@@ -131,3 +147,4 @@ Print Assumptions C13_lines_one_at_a_time.
 Print Assumptions C13_lines_straddling_range_fails.
 Print Assumptions C13_fixed_memory.
 Print Assumptions C13_complement_keeps_unresolvable.
+Print Assumptions C13_whole_record_is_never_silent.
